@@ -6,6 +6,7 @@ package meta
 // See docs/OPTIMIZATIONS.md for algorithm details and benchmark data.
 
 import (
+	"bytes"
 	"errors"
 	"regexp/syntax"
 	"sync"
@@ -367,7 +368,9 @@ func (s *ReverseInnerSearcher) Find(haystack []byte) *Match {
 	//   - Match end is ALWAYS len(haystack) (because .* matches any suffix to end)
 	// We can skip expensive DFA scans and just verify with fast IsMatch.
 	// This reduces Find from O(n) DFA scan to O(1) for common patterns!
-	if s.universalPrefix && s.universalSuffix {
+	// Only valid for a single-line haystack: `.` does not match '\n', so with several
+	// lines the match is confined to one line and the general loop below must find it.
+	if s.universalPrefix && s.universalSuffix && bytes.IndexByte(haystack, '\n') < 0 {
 		if s.IsMatch(haystack) {
 			return NewMatch(0, len(haystack), haystack)
 		}
@@ -574,10 +577,11 @@ func (s *ReverseInnerSearcher) findIndicesAtImpl(haystack []byte, at int, fwdCac
 
 	// UNIVERSAL MATCH OPTIMIZATION:
 	// For patterns like `.*connection.*` where both prefix and suffix are universal (.*)
-	if s.universalPrefix && s.universalSuffix {
-		// Just check if there's an inner literal anywhere from 'at'
-		pos := s.prefilter.Find(haystack, at)
-		if pos >= 0 {
+	// As in Find, this shortcut is only valid when haystack[at:] is a single line.
+	if s.universalPrefix && s.universalSuffix && bytes.IndexByte(haystack[at:], '\n') < 0 {
+		// The inner literal alone proves nothing for `.+@.*` (needs a char before '@')
+		// or `.*@[ab].*` (needs more than the literal) - verify like Find does.
+		if s.IsMatch(haystack[at:]) {
 			// For universal prefix/suffix, match spans from 'at' to end
 			return at, len(haystack), true
 		}
